@@ -572,6 +572,20 @@ def check_c15(tier, seed):
         if out.grad is not None:
             b.fail("C15.bounded.backward_not_noop", desc, "backward() did something inside no_autodiff")
         b.case(desc)
+    # backward() inside the scope does nothing -- whatever tensor it is called on (constant / integer / non-constant, with a graph
+    # recorded outside the scope)
+    for kind in ("nonconstant", "constant=True op", "integer result", "view"):
+        x = mg.tensor(rng.uniform(1, 2, size=(3,)))
+        y = x * 2.0
+        t = {"nonconstant": y, "constant=True op": mg.multiply(y, 3.0, constant=True), "integer result": mg.arange(3) + 1, "view": y[1:]}[kind]
+        up = mg.arange(3) if kind == "integer result" else x
+        with mg.no_autodiff:
+            t.backward()
+        desc = dict(backward_inside_no_autodiff=kind)
+        b.count("backward inside no_autodiff is a no-op")
+        if t.creator is None or (kind != "integer result" and y.creator is None) or x.grad is not None or t.grad is not None:
+            b.fail("C15.bounded.backward_not_noop", desc, "backward() inside no_autodiff cleared a recorded graph or wrote a gradient")
+        b.case(desc)
     # in-place updates write straight into the tensor's own memory
     for nm, f in (("setitem", lambda t: t.__setitem__(0, 5.0)), ("imul", lambda t: t.__imul__(3.0)), ("out=", lambda t: mg.add(t, 1.0, out=t)), ("view-setitem", lambda t: t[1:].__setitem__(0, 7.0))):
         t = mg.tensor(rng.uniform(1, 2, size=(3,)))
